@@ -30,14 +30,19 @@ VARIABLES cfg, m, steps
 vars == <<cfg, m, steps>>
 
 \* "long": fewer symbols, longer inputs (several elements, nested sequences, chunk boundaries with ChunkBytes = 4)
+\* "chunk": sequences only, inputs long enough to deliver more than one chunk behind a two-byte count
+\* (<<253, 255>> = 16383, <<253, 1>> = 127) - what the claimed rest may cost once real data has arrived
 Alpha == CASE Tier = "quick" -> {0, 1, 2, 4, 8, 253, 255}
            [] Tier = "long" -> {0, 4, 8, 255}
+           [] Tier = "chunk" -> {0, 1, 253, 255}
            [] OTHER -> {0, 1, 2, 3, 4, 8, 64, 252, 253, 255}
-MaxInput == IF Tier = "long" THEN 6 ELSE 3
+MaxInput == CASE Tier = "long" -> 6 [] Tier = "chunk" -> 8 [] OTHER -> 3
 Inputs == UNION { [1..n -> Alpha] : n \in 0..MaxInput }
 
 BoxU16 == TPtr(U16, "box")
-Types == { U8, U16, TBool, TUnit, TOptBool, TCompact(1), TCompact(2), TCompact(4), TNonZero(1, FALSE),
+SeqTypes == { TStr, TSeq(U8, "vec"), TSeq(U16, "vec"), TSeq(U8, "deque"), TSeq(TSeq(U8, "vec"), "vec"), TSeq(TOption(U8), "vec"),
+              TTuple(<<U8, TSeq(U8, "vec")>>), TBits(1, "lsb0") }
+AllTypes == { U8, U16, TBool, TUnit, TOptBool, TCompact(1), TCompact(2), TCompact(4), TNonZero(1, FALSE),
            TOption(TBool), TOption(U16), TResult(U8, TBool), TStr,
            TSeq(U8, "vec"), TSeq(U16, "vec"), TSeq(TBool, "vec"), TSeq(TUnit, "vec"), TSeq(TTwin(1, FALSE), "vec"),
            TSeq(U8, "list"), TSeq(U8, "heap"), TSeq(TOption(U8), "deque"),
@@ -48,10 +53,11 @@ Types == { U8, U16, TBool, TUnit, TOptBool, TCompact(1), TCompact(2), TCompact(4
            BoxU16, TPtr(TSeq(U8, "vec"), "rc"), TPtr(TUnit, "box"), TPtr(TPtr(U8, "box"), "arc"),
            TBits(1, "lsb0"), TBits(2, "msb0"),
            TEnum(<<TVariant(0, <<>>), TVariant(1, <<U8>>), TVariant(4, <<TBool, TSeq(U8, "vec")>>)>>) }
-RecTypes == { TNamed("RV"), TNamed("RB"), TNamed("Tree") }
+Types == IF Tier = "chunk" THEN SeqTypes ELSE AllTypes
+RecTypes == IF Tier = "chunk" THEN {} ELSE { TNamed("RV"), TNamed("RB"), TNamed("Tree") }
 
-DLims == CASE Tier = "quick" -> {-1, 0, 1} [] Tier = "long" -> {-1, 1} [] OTHER -> {-1, 0, 1, 2}
-MLims == CASE Tier = "quick" -> {-1, 0, 2, 9} [] Tier = "long" -> {-1, 6} [] OTHER -> {-1, 0, 1, 2, 4, 9}
+DLims == CASE Tier = "quick" -> {-1, 0, 1} [] Tier \in {"long", "chunk"} -> {-1, 1} [] OTHER -> {-1, 0, 1, 2}
+MLims == CASE Tier = "quick" -> {-1, 0, 2, 9} [] Tier \in {"long", "chunk"} -> {-1, 6} [] OTHER -> {-1, 0, 1, 2, 4, 9}
 
 \* the node estimate the code announces for ordered maps/sets (btree_utils.rs, with the real constants) stays within the
 \* factor two the property allows, for every length up to 5000 and a range of entry sizes
